@@ -69,6 +69,9 @@ IDEAS[8] = (IDEAS[7] + ". ADDITIONAL RULE FOR THIS ROUND: the earlier changes fo
             "vertex.py, __init__ exports, class attributes such as COMPACT_DIMENSIONALITY) and break it there")
 EXCLUDED[8] = (EXCLUDED[7] + ", no normalize() calls added inside other methods, no Hessian blocks assigned instead of accumulated, no errstate "
                "wrappers, no change of which vertex fix_first_pose marks")
+IDEAS[9] = IDEAS[8]
+EXCLUDED[9] = (EXCLUDED[8] + ", no mutation of an operand / argument by a comparison or an operator, no optional-argument defaults (offset_id, vertices=), no "
+               "ndarray-subclass type leaks, no finite-difference fallbacks replacing analytic Jacobians, no early exits when nothing is free")
 os.makedirs(pdir, exist_ok=True)
 for p in props:
     pid = p['id']
